@@ -24,14 +24,7 @@ import c04_api
 NOCUT = 1000000
 
 
-def parse_label(label):
-    m = re.match(r"^(\w+)(?:\((.*)\))?$", label.strip(), re.S)
-    if not m:
-        raise vf.MachineryError("bad action label %r" % label)
-    args = []
-    if m.group(2) is not None and m.group(2).strip() != "":
-        args = vf.unset(vf.parse_tla_value("<<" + m.group(2) + ">>"))
-    return m.group(1), args
+parse_label = c04_api.parse_label
 
 
 def fn_items(f):
@@ -134,3 +127,24 @@ def run_api(ctx):
     info.update(validate_trace(ctx, "Trace_LeaseDeleg.cfg", trace, len(bl), "C08 API", res.get("violations")))
     ctx.cov["replay"]["c08_api"] = info
     return info
+
+
+def run_replay(ctx, path):
+    """bin/check --replay: re-run exactly the recorded behaviour (driver replays) or re-validate the
+    recorded trace prefix (trace-monitor replays).  Returns False if the file is not an API-tier replay."""
+    import json
+    with open(path) as f:
+        rep = json.load(f)
+    body = rep.get("replay", {})
+    if isinstance(body, dict) and body.get("driver") == "c08-deleg":
+        res = ctx.go_driver("./c08", "TestDelegReplay", body["input"], name="replay", timeout=900)
+        ctx.take_driver_result(res, "[C08 API replay] ")
+        ctx.cov["replay"]["replayed"] = {"behaviour": body.get("behaviour"), "steps": len(body.get("history", []))}
+        return True
+    if isinstance(body, dict) and "trace_prefix" in body:
+        trace = os.path.join(ctx.scratch, "replay.ndjson")
+        with open(trace, "w") as f:
+            f.write("\n".join(body["trace_prefix"]) + "\n")
+        ctx.cov["replay"]["replayed"] = validate_trace(ctx, "Trace_LeaseDeleg.cfg", trace, 1, "C08 API", None)
+        return True
+    return False
